@@ -1029,6 +1029,7 @@ class PyCdlib:
         lastbyte = 0
         dirs = collections.deque([root_dir_record])
         seen_dir_extents = set()  # type: Set[int]
+        seen_dir_blocks = set()  # type: Set[int]
         while dirs:
             dir_record = dirs.popleft()
 
@@ -1036,7 +1037,15 @@ class PyCdlib:
             # already walked would keep this loop going forever.
             if dir_record.extent_location() in seen_dir_extents:
                 raise pycdlibexception.PyCdlibInvalidISO('Directory loop on the ISO')
-            seen_dir_extents.add(dir_record.extent_location())
+            # Directories never share blocks either; walking the same blocks
+            # once per directory that claims them would take time and memory
+            # out of all proportion to the size of the ISO.
+            dir_blocks = utils.ceiling_div(min(dir_record.get_data_length(), max(iso_file_length - dir_record.extent_location() * self.logical_block_size, 0)),
+                                           self.logical_block_size)
+            dir_block_range = range(dir_record.extent_location(), dir_record.extent_location() + max(dir_blocks, 1))
+            if any(block in seen_dir_blocks for block in dir_block_range):
+                raise pycdlibexception.PyCdlibInvalidISO('Overlapping directories on the ISO')
+            seen_dir_blocks.update(dir_block_range)
 
             self._seek_to_extent(dir_record.extent_location())
             length = dir_record.get_data_length()
